@@ -218,7 +218,7 @@ def mt_hygiene(tier, seed, res):
         return None
     ends = collections.Counter()
     with concurrent.futures.ThreadPoolExecutor(max_workers=common.NCPU) as ex:
-        for job, out, err, rc in ex.map(one, jobs):
+        for job, out, err, rc in common.bounded_map(ex, one, jobs):
             res.evaluations += 1
             m = re.findall(r"LEDGER-(\w+) ", out)
             ends[job[0] + ":" + (m[-1] if m else "no-ledger")] += 1
@@ -279,7 +279,7 @@ def run(tier, seed, proof):
     cases = l1.corpus_cases(PROP) + cases
     seen = set()
     with concurrent.futures.ThreadPoolExecutor(max_workers=common.NCPU) as ex:
-        for r in ex.map(lambda c: l1.run_case(*c, leaks=True), cases):
+        for r in common.bounded_map(ex, lambda c: l1.run_case(*c, leaks=True), cases):
             msg = ledger_oracle(r.log)
             if msg and l1.norm_sig(msg) not in seen:
                 seen.add(l1.norm_sig(msg))
